@@ -606,6 +606,11 @@ func TestVerifC02(t *testing.T) {
 	counts := map[string]int64{}
 	var harnessErr string
 	var capped bool
+	type sample struct {
+		seq int64
+		v   any
+	}
+	var samples []sample
 	var wg sync.WaitGroup
 	workers := runtime.GOMAXPROCS(0)
 	for w := 0; w < workers; w++ {
@@ -635,8 +640,10 @@ func TestVerifC02(t *testing.T) {
 					sg += "|VIOL:" + r.viol.key
 				}
 				rep.Outcome(sg, nontriv)
-				if r.viol == nil && nontriv && len(hst.idx) == 3 && hst.seq%9973 == 0 {
-					rep.Sample(map[string]any{"history": hst, "outcome": r.sig})
+				if nontriv && len(hst.idx) >= 2 && hst.seq%1009 == 0 {
+					mu.Lock()
+					samples = append(samples, sample{hst.seq, map[string]any{"history": hst, "outcome": sg}})
+					mu.Unlock()
 				}
 				if r.viol != nil {
 					mu.Lock()
@@ -683,10 +690,9 @@ func TestVerifC02(t *testing.T) {
 				continue
 			}
 			enum.Product(dims, func(idx []int) bool {
-				if n == 3 && alphaName == "full" && mode == "async" {
-					// depth 3 x full alphabet x async: the event after the last produce is
-					// limited to none | flush+restart (the other two are covered at depth <= 2
-					// and with the reduced alphabet)
+				if n == 3 && mode == "async" {
+					// depth 3 x async: the event after the last produce is limited to
+					// none | flush+restart (all four are covered at depth <= 2)
 					if ls := seps[idx[2*n-1]]; ls != "none" && ls != "flush+restart" {
 						return true
 					}
@@ -738,6 +744,10 @@ func TestVerifC02(t *testing.T) {
 	}()
 	wg.Wait()
 	rep.Count("histories", seq)
+	sort.Slice(samples, func(i, j int) bool { return samples[i].seq < samples[j].seq })
+	for i := 0; i < len(samples); i += 1 + len(samples)/6 {
+		rep.Sample(samples[i].v)
+	}
 	if capped {
 		rep.Cap("deadline hit during history enumeration")
 	}
